@@ -108,11 +108,32 @@ func (s *subscriberServer) CreateSubscription(
 	if params.MessageTTL == 0 {
 		params.MessageTTL = defaultSubscriptionMessageTTL
 	}
+	if params.TTL < 0 {
+		return nil, status.Error(codes.InvalidArgument, "expiration_policy.ttl must not be negative")
+	}
+	if params.MessageTTL < 0 {
+		return nil, status.Error(
+			codes.InvalidArgument,
+			"message_retention_duration must not be negative",
+		)
+	}
 	if req.RetryPolicy != nil {
 		params.MinBackoff = req.RetryPolicy.MinimumBackoff.AsDuration()
 		params.MaxBackoff = req.RetryPolicy.MaximumBackoff.AsDuration()
 	}
 	if req.DeadLetterPolicy != nil {
+		if req.DeadLetterPolicy.DeadLetterTopic == "" {
+			return nil, status.Error(
+				codes.InvalidArgument,
+				"dead_letter_policy.dead_letter_topic must be set",
+			)
+		}
+		if req.DeadLetterPolicy.MaxDeliveryAttempts < 0 {
+			return nil, status.Error(
+				codes.InvalidArgument,
+				"dead_letter_policy.max_delivery_attempts must not be negative",
+			)
+		}
 		params.MaxDeliveryAttempts = req.DeadLetterPolicy.MaxDeliveryAttempts
 		if params.MaxDeliveryAttempts == 0 {
 			params.MaxDeliveryAttempts = defaultDeadLetterMaxAttempts
@@ -185,6 +206,9 @@ func (s *subscriberServer) UpdateSubscription(
 	ctx context.Context,
 	req *pubsubpb.UpdateSubscriptionRequest,
 ) (*pubsubpb.Subscription, error) {
+	if req.Subscription == nil {
+		return nil, status.Error(codes.InvalidArgument, "subscription must be set")
+	}
 	if !isValidSubscriptionName(req.Subscription.Name) {
 		return nil, status.Errorf(
 			codes.InvalidArgument,
@@ -510,6 +534,10 @@ func (s *subscriberServer) Pull(
 		)
 	}
 
+	if req.MaxMessages < 1 {
+		return nil, status.Error(codes.InvalidArgument, "max_messages must be positive")
+	}
+
 	p := actions.GetSubscriptionMessagesParams{
 		Name:        req.Subscription,
 		MaxMessages: int(req.MaxMessages),
@@ -558,6 +586,9 @@ func (s *subscriberServer) Seek(
 	switch target := req.Target.(type) {
 	case *pubsubpb.SeekRequest_Time:
 		// FUTURE: do we want to bound how far in the future or past the target can be?
+		if target.Time.AsTime().IsZero() {
+			return nil, status.Error(codes.InvalidArgument, "Unsupported seek time")
+		}
 		action := actions.NewSeekSubscriptionToTime(actions.SeekSubscriptionToTimeParams{
 			Name: req.Subscription,
 			Time: target.Time.AsTime(),
@@ -575,6 +606,13 @@ func (s *subscriberServer) Seek(
 		}
 		return &pubsubpb.SeekResponse{}, nil
 	case *pubsubpb.SeekRequest_Snapshot:
+		if !isValidSnapshotName(target.Snapshot) {
+			return nil, status.Errorf(
+				codes.InvalidArgument,
+				"Unsupported project / snapshot path %s",
+				target.Snapshot,
+			)
+		}
 		action := actions.NewSeekSubscriptionToSnapshot(actions.SeekSubscriptionToSnapshotParams{
 			SubscriptionName: req.Subscription,
 			SnapshotName:     target.Snapshot,
@@ -854,7 +892,7 @@ func validatePushConfig(cfg *pubsubpb.PushConfig) error {
 			return status.Errorf(codes.InvalidArgument, "Unsupported 'x-goog-version': %s", v)
 		}
 	}
-	if cfg.AuthenticationMethod != nil {
+	if cfg.GetAuthenticationMethod() != nil {
 		return status.Errorf(codes.Unimplemented, "PushConfig.AuthenticationMethod not supported")
 	}
 	return nil
